@@ -20,16 +20,25 @@ const BASE_ASSUME: &[&str] = &[
     "only executed histories count: bounded exhaustive sets plus seeded random histories",
 ];
 
+/// the unwinding histories (a user callback or trait impl panics, the caller catches it and goes on) are judged
+/// by every property that speaks about what happens afterwards; they run in the sequential part of a check
+fn with_unwind(mut out: Outcome, p: &Params, prop: &'static str) -> Outcome {
+    if p.part != "threads" {
+        out.merge(eyeball_verif::runners_unwind::run_unwind(p, prop));
+    }
+    out
+}
+
 fn spec(id: &str) -> Option<Spec> {
     Some(match id {
         "C01" => Spec {
-            run: runners_thr::run_c01,
+            run: |p| with_unwind(runners_thr::run_c01(p), p, "C01"),
             level: "exploration",
             rule: "call histories on the real Observable / SharedObservable (sync flavour) with a payload whose hash ignores one field; every return value and every poll result is compared with a version-counter model (value, version, per-subscriber observed version). Exhaustive over short sequences of the ~35-operation state-dependent alphabet, random long histories with <=5 subscribers, <=4 clones, write/read guards; plus a director scenario (subscribe + first poll on one thread || write accesses that do not notify on another, every order at the pause points). Non-trivial = the history contains a Ready poll, a Pending poll and a conditional setter that did not store; distinct = hash of the history.",
             assumptions: BASE_ASSUME,
         },
         "C16" => Spec {
-            run: runners_thr::run_c16,
+            run: |p| with_unwind(runners_thr::run_c16(p), p, "C16"),
             level: "exploration",
             rule: "the C01/C02/C03 histories executed on the async-lock flavour with every future driven by a hand-rolled executor, judged by the same model and compared call by call with the sync run of the same history; plus randomised guard scripts (write guard held across subscriber polls; read guard held while writers wait) with their own oracle. Non-trivial = Ready and Pending polls both observed (histories), or the script ran to its end (scripts); distinct = hash of (flavour, history) / of the script log.",
             assumptions: BASE_ASSUME,
@@ -41,7 +50,7 @@ fn spec(id: &str) -> Option<Spec> {
             assumptions: BASE_ASSUME,
         },
         "C19" => Spec {
-            run: runners_obs::run_c19,
+            run: |p| with_unwind(runners_obs::run_c19(p), p, "C19"),
             level: "exploration",
             rule: "histories of clone / subscribe / subscriber clone / downgrade / upgrade / weak clone / into_shared / drops (plus sets and polls) on both lock flavours; after every single operation observable_count, subscriber_count, strong_count, weak_count of every live handle are compared with integer counters. Non-trivial = at least two count checks and one subscriber; distinct = hash of (flavour, history).",
             assumptions: BASE_ASSUME,
@@ -53,7 +62,7 @@ fn spec(id: &str) -> Option<Spec> {
             assumptions: BASE_ASSUME,
         },
         "C03" => Spec {
-            run: runners_thr::run_c03,
+            run: |p| with_unwind(runners_thr::run_c03(p), p, "C03"),
             level: "exploration",
             rule: "(a) histories of clone / drop / downgrade / upgrade / weak clone / into_shared / subscribe / set / poll against an owner-count model: poll is None iff no owner exists (also after reset, repeatedly), upgrade succeeds iff an owner exists, get/read return the last value after the end; exhaustive short sequences + random. (b) director scenarios: two and three threads dropping the last clones, last drop || upgrade (then set through the upgraded handle), drop || upgrade || poll - every order at sdrop:enter, sdrop:decided, upgrade:between, close:*, poll:*; verdict at join: every subscriber ended iff no handle is left. (c) free-running rounds. Non-trivial / distinct as C02.",
             assumptions: BASE_ASSUME,
@@ -71,25 +80,25 @@ fn spec(id: &str) -> Option<Spec> {
             assumptions: BASE_ASSUME,
         },
         "C05" => Spec {
-            run: runners_vec::run_c05,
+            run: |p| with_unwind(runners_vec::run_c05(p), p, "C05"),
             level: "exploration",
             rule: "histories = initial vector + source operations + subscriptions + polls on a real ObservableVector<Tracked>; exhaustive short sequences and seeded random long ones. After every mutating call a reference batched subscriber is polled (one item per message); every other subscriber's items are compared with the undelivered messages. Non-trivial = at least 2 messages published and both a Ready and a Pending poll observed; distinct = hash of (capacity, initial vector, operation list).",
             assumptions: BASE_ASSUME,
         },
         "C06" => Spec {
-            run: runners_thr::run_c06,
+            run: |p| with_unwind(runners_thr::run_c06(p), p, "C06"),
             level: "exploration",
             rule: "as C05 with capacities 1,2,3,5,6,16,1000 and lazy polling patterns; the harness counts undelivered messages per subscriber. Non-trivial = a Reset was delivered or a subscriber was polled with a backlog of at least capacity-1 messages; distinct = hash of the history. A run without any Reset is INCONCLUSIVE. Plus a cross-thread variant (writer thread, every subscriber stream on its own park/unpark thread): a stream that is Pending after the writer finished, and not woken, must hold the vector's contents; at the end every replica equals the final contents.",
             assumptions: BASE_ASSUME,
         },
         "C07" => Spec {
-            run: runners_vec::run_c07,
+            run: |p| with_unwind(runners_vec::run_c07(p), p, "C07"),
             level: "fault_enumeration",
             rule: "fault = abandoning a transaction: every body (closed under prefixes, so every abandon point) x every ending (commit, drop, rollback+drop, rollback+commit, rollback+more+commit/drop) x subscriber sets x capacities, then random histories rich in transactions. Non-trivial = the history ran at least one transaction to its end; distinct = hash of the history.",
             assumptions: BASE_ASSUME,
         },
         "C08" => Spec {
-            run: runners_thr::run_c08,
+            run: |p| with_unwind(runners_thr::run_c08(p), p, "C08"),
             level: "exploration",
             rule: "history, then drop of the ObservableVector, then every stream drained to None; plus a cross-thread variant (vector on one thread, every subscriber stream on its own park/unpark thread, hook-injected yields) whose verdict is taken at join. Non-trivial = a stream ended after having been pending (woken by the drop), behind, lagged or in the middle of a batch; distinct = hash of the history.",
             assumptions: BASE_ASSUME,
@@ -140,6 +149,15 @@ fn spec(id: &str) -> Option<Spec> {
             run: runners_vec::run_c17,
             level: "exploration",
             rule: "every mutator with every index 0..len+2 directly and inside transactions, all traversal decision sequences over {keep,set,remove,set-then-remove,stop} for lengths <= 5 (6 thorough), plus random histories; return values, contents, panics and visiting order (by element id) compared with a plain Vec model. Non-trivial = the history contained an out-of-range panic, a traversal that mutated, or a documented no-op; distinct = hash of the history.",
+            assumptions: BASE_ASSUME,
+        },
+        "UNWIND" => Spec {
+            run: |p| {
+                let prop: &'static str = Box::leak(std::env::var("UNWIND_PROP").unwrap_or("C20".into()).into_boxed_str());
+                eyeball_verif::runners_unwind::run_unwind(p, prop)
+            },
+            level: "exploration",
+            rule: "debug entry: the unwinding histories alone, judged for the property named by UNWIND_PROP",
             assumptions: BASE_ASSUME,
         },
         _ => return None,
